@@ -22,7 +22,8 @@ PROJECTION = ("C04: rendering of PacketHeaders (header kinds + lengths, payload 
 ASSUMPTIONS = [
     "header structs are observed as kind + serialized length in the model/implementation correspondence; their field "
     "values are compared as Rust values (==) between the two families on the implementation side only (field decoders: C08/C15)",
-    "the lax families (LaxPacketHeaders vs LaxSlicedPacket) are compared on the implementation side only; they are not modelled in Coq here",
+    "LaxPacketHeaders is modelled (Parse/HdrLaxModel.v) and compared exactly with the implementation on every case; the whole-packet "
+    "relation LaxPacketHeaders vs LaxSlicedPacket is compared on the implementation side (per-layer agreement is proved in Coq)",
 ]
 EXT_KINDS = ("60", "43", "44", "51")
 
@@ -55,6 +56,11 @@ def corpus():
         "ip " + v6h.format(plen=24, nh=51) + "3301000000000000" + "00000000" + "1100000000000000" + "00000000",
         # ARP behind a bare ether type (lax: payload must be Empty since d79cab6)
         "et:2054 0001080006040001aabbccddeeff0a000001000000000000c0a80001",
+        # LaxPacketHeaders::from_linux_sll: IPv4/UDP behind SLL; netlink (payload = LinuxSll); cut short; VLAN cut short
+        "sll 0000000100060102030405060000" + "0800" + "4500001c0000000040110000010203040506070800010002000800aa",
+        "sll 0000033800000000000000000000" + "0010" + "aabbccdd",
+        "sll 00000001000601020304",
+        "sll 0000000100060102030405060000" + "8100" + "0102",
         # lax/iter witness (F2)
         "ip 6000000000083c40" + "00" * 32 + "2b00000000000000",
     ]
@@ -212,6 +218,9 @@ def gen_cases(rng, tier):
     while k < n_struct:
         ent, data, tag = pktgen.gen_packet(rng)
         if ent == "sll":
+            if k % 4 == 0:
+                # LaxPacketHeaders::from_linux_sll (model correspondence only: no slicing counterpart)
+                cases.append("sll %s" % hx(data))
             ent, data = "eth", data[2:]      # 14 bytes of link header in front of the same body
         cases.append("%s %s" % (ent, hx(data)))
         k += 1
@@ -373,12 +382,25 @@ def compare(ctx, cases, impl, model_lines):
         ent_full, hexs = c.split()[:2]
         ent = ent_full.split(":")[0]
         data = bytes.fromhex(hexs) if hexs != "-" else b""
-        hm = sm = cm = stopped = hw = cw = None
+        hm = sm = cm = stopped = hw = cw = lm = None
+        if ent == "sll":
+            # LaxPacketHeaders::from_linux_sll: implementation against the model, exact
+            for prof, lines in impl.items():
+                if "PANIC" in lines[i] or not lines[i].startswith("sll H="):
+                    orc.append((i, "%s: abnormal implementation answer: %s" % (prof, lines[i][:300]), None))
+                elif model_lines is not None and lines[i] != model_lines[i]:
+                    corr.append((i, "%s: LaxPacketHeaders::from_linux_sll impl '%s' model '%s'" % (prof, lines[i], model_lines[i])))
+            hist["sll:lax-model"] = hist.get("sll:lax-model", 0) + 1
+            if c not in seen:
+                seen.add(c)
+                if impl and "exts=[]" not in next(iter(impl.values()))[i]:
+                    nontriv += 1
+            continue
         if model_lines is not None:
             mp = model_lines[i].split(" | ")
-            if len(mp) == 6:
-                hm, sm, cm, stopped, hw, cw = mp
-                hw, cw = hw[3:], cw[3:]
+            if len(mp) == 7:
+                hm, sm, cm, stopped, hw, cw, lm = mp
+                hw, cw, lm = hw[3:], cw[3:], lm[len("laxH="):]
             else:
                 corr.append((i, "model runner: '%s'" % model_lines[i][:200]))
         klass = None
@@ -418,6 +440,13 @@ def compare(ctx, cases, impl, model_lines):
             o = lax_oracle(ent, data, lax)
             if o:
                 orc.append((i, "%s: %s" % (prof, o[0]), o[1]))
+            # correspondence of the lax struct family: LaxPacketHeaders impl against its model, exact
+            if lm is not None:
+                ml = re.match(r"lax H=(.*) S=(.*) hdrs=(\S+) pl=(\S+) stop=(\S+)$", lax)
+                if not ml:
+                    corr.append((i, "%s: unparsable lax line '%s'" % (prof, lax[:200])))
+                elif ml.group(1) != lm:
+                    corr.append((i, "%s: LaxPacketHeaders impl '%s' model '%s'" % (prof, ml.group(1), lm)))
         ref = hm or (next(iter(impl.values()))[i].split(" || ")[0] if impl else "")
         key = "%s:%s" % (ent, klass)
         hist[key] = hist.get(key, 0) + 1
